@@ -570,14 +570,19 @@ func launchFuzz() (code int, ok bool) {
 			return 1, true
 		}
 		if err != nil {
-			// the coordinating process died (while re-running a crasher: the
-			// journal names the case and the driver reports it)
 			fmt.Printf("c08: campaign process failed: %v\n", err)
-			st.SetExtra("rounds", rounds+1)
-			if ee, isExit := err.(*exec.ExitError); isExit && ee.ExitCode() > 0 {
-				return ee.ExitCode(), true
+			if jp := journalPath(); jp != "" {
+				if _, serr := os.Stat(jp); serr == nil {
+					// it died while re-running a crasher with the full
+					// oracle set: the journal names the case and the
+					// driver reports it (crash_is_violation)
+					st.SetExtra("rounds", rounds+1)
+					return 3, true
+				}
 			}
-			return 2, true
+			// no case was being re-run: an infrastructure failure of this
+			// round (killed, out of memory in the engine), not a verdict
+			st.Note("round %d: campaign process failed without a case in flight (%v)", rounds, err)
 		}
 	}
 	st.SetExtra("rounds", rounds)
